@@ -20,12 +20,17 @@ Correspondence (against `Model/Preserve.lean`, driver token `preserve`):
                 network is compared element-wise with the driver's provenance map computed from
                 (key, old shape, new shape): `old@k` entries must be bit-equal to element k of the old
                 tensor, `fresh` entries are unconstrained.
-* `agent`     : `Mutations.architecture_mutate` + `reinit_from_mutated` on real agents built by agents.py.
+* `agent`     : rounds of `Mutations.mutation` of every kind (none, architecture, parameters, activation, rl_hp) on
+                real single- and multi-agent algorithms built by agents.py (list-valued evaluation groups of
+                MADDPG / MATD3 / IPPO included); after every round each shared / target network must be bit-equal,
+                tensor by tensor (walker.module_tensors), to the evaluation network it shadows.
 
 Oracle (independent of the Lean model): the statement itself — every same-named parameter (and
 buffer, see assumptions) keeps its values on the common index range; `module(x)` is bit-equal before
-and after a step that changed no name and no shape; `clone()(x) == module(x)` and
-`clone().state_dict() == state_dict()` bit for bit.
+and after a step that changed no name and no shape (eval and training mode); `clone()(x) == module(x)` in eval
+AND training mode under the same RNG state, and every tensor the clone holds (parameters, all buffers including
+non-persistent ones, plain tensor attributes) equals the original's bit for bit; a method changes the architecture
+hyperparameters of its own module only.
 """
 from __future__ import annotations
 
@@ -1378,7 +1383,40 @@ def selftest(chk: Check) -> None:
         ok6 = noticed(cls_case)
     finally:
         nb.EvolvableNetwork.recreate_encoder = orig_re
-    missed = [n for n, ok in (("wrong-corner copy", ok1), ("recreate without preserve", ok2),
+    # 7. clone() transfers only part of the state: the NoisyLinear noise buffers stay the fresh ones
+    noisy = {"suite": "mutation", "spec": {"kind": "mlp", "cfg": dict(num_inputs=3, num_outputs=2, hidden_size=[8],
+             min_mlp_nodes=4, max_mlp_nodes=64, layer_norm=False, noisy=True)}, "seed": 7, "train": 0, "pair": False,
+             "chain": [{"op": "clone"}]}
+    if noticed(noisy):
+        raise InfraError("C04 self-test: the unpatched implementation is flagged on the noisy clone case")
+
+    def clone_without_noise(self):
+        c = self.__class__(**copy.deepcopy(self.get_init_dict()))
+        sd = {k: v for k, v in self.state_dict().items() if not k.endswith(NOISE_BUFFERS)}
+        c.load_state_dict(sd, strict=False)
+        return c
+    mb.EvolvableModule.clone = clone_without_noise
+    try:
+        ok7 = noticed(noisy)
+    finally:
+        mb.EvolvableModule.clone = orig_clone
+    # 8. the list branch of reinit_from_mutated loads the re-created targets' own state dicts
+    from agilerl.hpo import mutation as hm
+    orig_reinit = hm.Mutations.reinit_from_mutated
+
+    def reinit_own(self, offspring, remove_compile_prefix=False):
+        if isinstance(offspring, list):
+            return [self.reinit_module(m_, m_.init_dict) for m_ in offspring]
+        return orig_reinit(self, offspring, remove_compile_prefix)
+    if run_agent_case(chk, "MADDPG", "vector", 4, "none", 1)[0]:
+        raise InfraError("C04 self-test: the unpatched implementation is flagged on the MADDPG target case")
+    hm.Mutations.reinit_from_mutated = reinit_own
+    try:
+        ok8 = bool(run_agent_case(chk, "MADDPG", "vector", 4, "none", 1)[0])
+    finally:
+        hm.Mutations.reinit_from_mutated = orig_reinit
+    missed = [n for n, ok in (("clone without the noise buffers", ok7), ("multi-agent targets not reloaded", ok8),
+                              ("wrong-corner copy", ok1), ("recreate without preserve", ok2),
                               ("clone without load_state_dict", ok3), ("wrong-corner copy (pure suite)", ok4),
                               ("multi-input rebuilt from stale configs", ok5),
                               ("encoder_cls encoder re-created without preserve", ok6)) if not ok]
@@ -1386,7 +1424,8 @@ def selftest(chk: Check) -> None:
         raise InfraError("C04 self-test: seeded fault(s) not noticed: " + ", ".join(missed))
     chk.notes.append("self-test: wrong-corner copy, recreate_network without preserve, clone without load_state_dict, "
                      "multi-input extractors rebuilt from construction-time configs, encoder_cls encoder re-created "
-                     "without preserve - all detected")
+                     "without preserve, clone without the NoisyLinear noise buffers, multi-agent target networks not "
+                     "reloaded from the evaluation networks - all detected")
 
 
 def replay(chk: Check, path: str) -> int:
